@@ -448,7 +448,10 @@ class C17(Prop):
         if rc != 0:
             col.count("cli_nonzero_exit")
             return
-        if all(os.path.isfile(a) for a in args):
+        if all(os.path.isfile(a) for a in args) and not any(c in a for a in args for c in "*?["):
+            # (an existing file whose NAME holds a glob character sends the whole argument list through the resolver, which
+            # lists every file once and sorted; with plain names the files are taken as written. Either is a duplicate-free
+            # treatment of "the files named"; the expectation below is the as-written one.)
             # formatting run (no --list-files) over explicitly named files only: the same files, in the order given
             with open(os.path.join(root, "flowmark.toml"), "w") as f:
                 f.write("".join(f"{keys[k]} = {tv(v)}\n" for k, v in settings.items() if k in keys and v is not None))
